@@ -4,6 +4,7 @@
 -/
 import CnvVerif.Model.SegFilter
 import CnvVerif.Lemmas.SegFilter
+import CnvVerif.Lemmas.SegFilterSpan
 namespace CnvVerif.C14
 open CnvVerif
 
@@ -65,6 +66,21 @@ theorem conserves_probes (h : Bool) (f : Seg → Option Rat) (t : List Seg) :
 theorem conserves_weight (h : Bool) (f : Seg → Option Rat) (t : List Seg) :
     sumRat ((specSquash h f t).map (·.weight)) = sumRat (t.map (·.weight)) :=
   specSquash_conserves_weight h f t
+
+/-- each chromosome's covered span is conserved: on every chromosome the first output segment starts where the
+    chromosome's first input segment starts and the last output segment ends where its last input segment ends -/
+theorem conserves_chrom_span (h : Bool) (f : Seg → Option Rat) (t : List Seg) (hc : ChromContig t)
+    (c : String) (first last : Seg)
+    (hfst : (t.filter (fun r => r.chrom == c)).head? = some first)
+    (hlst : (t.filter (fun r => r.chrom == c)).getLast? = some last) :
+    (((specSquash h f t).filter (fun r => r.chrom == c)).head?.map (·.s) = some first.s) ∧
+    (((specSquash h f t).filter (fun r => r.chrom == c)).getLast?.map (·.e) = some last.e) :=
+  specSquash_conserves_chrom_span h f t hc c first last hfst hlst
+
+/-- … and no chromosome appears or disappears -/
+theorem same_chromosomes (h : Bool) (f : Seg → Option Rat) (t : List Seg) (c : String) :
+    (∃ r ∈ specSquash h f t, r.chrom = c) ↔ (∃ r ∈ t, r.chrom = c) :=
+  specSquash_same_chromosomes h f t c
 
 /-- the cut-offs read from the source are the ones the property names: 1.96, cn = 0, cn ≥ 5 -/
 theorem constants_are : Generated.SEM_ZSCORE_dec = 196 / 100 ∧ Generated.AMPDEL_AMP_MIN = [5] ∧
